@@ -80,14 +80,14 @@ theorem run_ib (f : Flags) (s : Stanza) (ht : s.tag = .ib) :
         recvPresence, recvChatstate, recvIb, recvIq, recvNotifications, recvContacts, recvCalls, recvGroups,
         recvPrivacy, recvProfiles, nothing, up, down, ht, h1, h2, h3]
 
+/-- every stream error, whether its kind is known (`s.errKnown`) or not, is handed upward once; nothing raises -/
 theorem run_streamError (f : Flags) (s : Stanza) (ht : s.tag = .streamError) :
-    runAll (recvHandlers f) s {} =
-      if s.errKnown then ({ ups := [.streamError] }, false) else ({}, true) := by
+    runAll (recvHandlers f) s {} = ({ ups := [.streamError] }, false) := by
   obtain ⟨g, m, p, pr⟩ := f
-  cases h1 : s.errKnown <;> cases g <;> cases m <;> cases p <;> cases pr <;>
+  cases g <;> cases m <;> cases p <;> cases pr <;>
     simp [recvHandlers, runAll, Out.append, recvAuth, recvMessages, recvMedia, recvReceipts, recvAcks,
         recvPresence, recvChatstate, recvIb, recvIq, recvNotifications, recvContacts, recvCalls, recvGroups,
-        recvPrivacy, recvProfiles, nothing, up, down, ht, h1]
+        recvPrivacy, recvProfiles, nothing, up, down, ht]
 
 /-- the encryption shortcut only concerns notifications -/
 theorem recvStack_ne (f : Flags) (enc : Bool) (s : Stanza) (ht : s.tag ≠ .notification) :
@@ -131,7 +131,7 @@ theorem ups_at_most_one (f : Flags) (enc : Bool) (s : Stanza) : (recvStack f enc
     case iq => exact ups_iq f s ht
     case call => rw [run_call f s ht]; simp
     case ib => rw [run_ib f s ht]; simp only []; repeat' (first | (simp; done) | split)
-    case streamError => rw [run_streamError f s ht]; split <;> simp
+    case streamError => rw [run_streamError f s ht]; simp
     all_goals
       obtain ⟨g, m, p, pr⟩ := f
       cases g <;> cases m <;> cases p <;> cases pr <;>
@@ -139,7 +139,8 @@ theorem ups_at_most_one (f : Flags) (enc : Bool) (s : Stanza) : (recvStack f enc
         recvPresence, recvChatstate, recvIb, recvIq, recvNotifications, recvContacts, recvCalls, recvGroups,
         recvPrivacy, recvProfiles, nothing, up, down, ht]
 
-/-- single-owner tags: exactly one entity of the right kind, nothing sent back, no error -/
+/-- single-owner tags: exactly one entity of the right kind, nothing sent back, no error
+    (a stream error of ANY kind, known or not, is delivered as one `.streamError` entity) -/
 theorem recv_simple (f : Flags) (enc : Bool) (s : Stanza) :
     (s.tag = .receipt → recvStack f enc s = ({ ups := [.receipt] }, false)) ∧
     (s.tag = .ack → recvStack f enc s = ({ ups := [.ack] }, false)) ∧
@@ -148,12 +149,12 @@ theorem recv_simple (f : Flags) (enc : Bool) (s : Stanza) :
     (s.tag = .streamFeatures → recvStack f enc s = ({ ups := [.streamFeatures] }, false)) ∧
     (s.tag = .success → recvStack f enc s = ({ ups := [.success], evts := [.authed] }, false)) ∧
     (s.tag = .failure → recvStack f enc s = ({ ups := [.failure], evts := [.disconnectRequest] }, false)) ∧
-    (s.tag = .streamError → s.errKnown = true → recvStack f enc s = ({ ups := [.streamError] }, false)) ∧
+    (s.tag = .streamError → recvStack f enc s = ({ ups := [.streamError] }, false)) ∧
     (s.tag = .other → recvStack f enc s = ({}, false)) := by
   refine ⟨?_, ?_, ?_, ?_, ?_, ?_, ?_, ?_, ?_⟩
   case refine_8 =>
-    intro ht he
-    rw [recvStack_ne f enc s (by simp [ht]), run_streamError f s ht]; simp [he]
+    intro ht
+    rw [recvStack_ne f enc s (by simp [ht]), run_streamError f s ht]
   all_goals
     intro ht
     rw [recvStack_ne f enc s (by simp [ht])]
@@ -243,17 +244,33 @@ def mediaEnt : Media → Option Ent
   | .video => some .video | .gif => some .video | .location => some .location | .contact => some .contact
   | .document => some .document | .url => some .extendedTextMedia | _ => none
 
+/-- a message of type media that has a proto child and whose decoded payload is a sender key distribution
+    on its own never surfaces, whatever the mediatype attribute says and whichever modules are present:
+    no entity, no receipt, nothing raises (no well-formedness assumption needed) -/
+theorem recv_media_keyDistributionOnly (f : Flags) (enc : Bool) (s : Stanza) (ht : s.tag = .message)
+    (hm : s.mtype = .media) (hp : s.hasProto = true) (hk : s.payload = .keyDistributionOnly) :
+    recvStack f enc s = ({}, false) := by
+  rw [recvStack_ne f enc s (by simp [ht]), run_message f s ht]
+  simp only [recvMessages, recvMedia, ht, hp, hm, hk]
+  cases f.media <;> cases s.media <;> simp [nothing, up, down, Out.append]
+
+/-- messages by payload (text path) and by media kind (media path).  The media path dispatches on the
+    mediatype only when the payload is not a bare sender key distribution; that case yields nothing. -/
 theorem recv_message (f : Flags) (enc : Bool) (s : Stanza) (h : MessageWF s) :
     (s.media = .absent → s.payload = .conversation → recvStack f enc s = ({ ups := [.text] }, false)) ∧
     (s.media = .absent → s.payload = .extendedText → recvStack f enc s = ({ ups := [.extendedText] }, false)) ∧
     (s.media = .absent → s.payload = .keyDistributionOnly → recvStack f enc s = ({}, false)) ∧
     (s.media = .absent → s.payload = .other → recvStack f enc s = ({ downs := [.messageReceipt] }, false)) ∧
-    (∀ e, mediaEnt s.media = some e → recvStack f enc s = ({ ups := if f.media then [e] else [] }, false)) ∧
-    (s.media = .other → recvStack f enc s = ({ downs := if f.media then [.messageReadReceipt] else [] }, false)) := by
-  obtain ⟨ht, hp, hmt⟩ := h
-  rw [recvStack_ne f enc s (by simp [ht]), run_message f s ht]
-  simp only [recvMessages, recvMedia, ht, hp]
-  refine ⟨?_, ?_, ?_, ?_, ?_, ?_⟩
+    (∀ e, mediaEnt s.media = some e → s.payload ≠ .keyDistributionOnly →
+      recvStack f enc s = ({ ups := if f.media then [e] else [] }, false)) ∧
+    (s.media = .other → s.payload ≠ .keyDistributionOnly →
+      recvStack f enc s = ({ downs := if f.media then [.messageReadReceipt] else [] }, false)) ∧
+    (s.mtype = .media → s.hasProto = true → s.payload = .keyDistributionOnly → recvStack f enc s = ({}, false)) := by
+  refine ⟨?_, ?_, ?_, ?_, ?_, ?_, fun hm hp hk => recv_media_keyDistributionOnly f enc s h.1 hm hp hk⟩
+  all_goals
+    obtain ⟨ht, hp, hmt⟩ := h
+    rw [recvStack_ne f enc s (by simp [ht]), run_message f s ht]
+    simp only [recvMessages, recvMedia, ht, hp]
   · intro a b
     have hm : s.mtype ≠ .media := by simp [hmt, a]
     cases f.media <;> simp [a, b, hm, nothing, up, down, Out.append]
@@ -266,12 +283,12 @@ theorem recv_message (f : Flags) (enc : Bool) (s : Stanza) (h : MessageWF s) :
   · intro a b
     have hm : s.mtype ≠ .media := by simp [hmt, a]
     cases f.media <;> simp [a, b, hm, nothing, up, down, Out.append]
-  · intro e he
+  · intro e he hk
     cases a : s.media <;> simp [mediaEnt, a] at he hmt <;> subst he <;>
-      cases f.media <;> simp [hmt, nothing, up, down, Out.append]
-  · intro a
+      cases f.media <;> simp [hmt, hk, nothing, up, down, Out.append]
+  · intro a hk
     have hm : s.mtype = .media := by simp [hmt, a]
-    cases f.media <;> simp [a, hm, nothing, up, down, Out.append]
+    cases f.media <;> simp [a, hm, hk, nothing, up, down, Out.append]
 
 /-! outgoing -/
 
